@@ -575,7 +575,60 @@ def rule_snapshot_fields(ctx):
     r(ctx)
 
 
+def rule_cancel_writers(ctx):
+    """tick_inner assumes that every cancellation is followed by its own cancelled phase (which forces running = true,
+    respawns and resets the flag): only tick_inner, restart and Drop may raise `canceled` (shared with C13)."""
+    from props.c13 import rule_cancel_writers as r
+    r(ctx)
+
+
+def rule_clone_complete(ctx):
+    """The worker's and the snapshot's copies of the pattern are synchronised with `clone_from` (tick_inner,
+    Snapshot::update).  A hand-written `clone_from` that leaves a field of the destination untouched makes the copies
+    diverge by history (the destination keeps a flag of an older pattern), so the snapshot's pattern no longer is the
+    pattern its matches were computed with.  Every hand-written clone_from in both crates writes every field of its
+    struct on every path (a derived impl does so by construction)."""
+    facts = ctx.facts
+    n = 0
+    for cname in ("nucleo", "nucleo_matcher"):
+        c = facts.crate(cname)
+        adts = {a["path"]: a for a in c["adts"]}
+        for im in c["impls"]:
+            if im.get("trait") != "std::clone::Clone" or im.get("derived"):
+                continue
+            cf = [it for it in im["items"] if it.endswith("::clone_from")]
+            if not cf:
+                continue
+            a = adts.get(im["self_ty"]) or adts.get(im["self_ty"].split("<")[0])
+            if a is None or a.get("kind") != "Struct":
+                continue
+            fn = get_fn(facts, cname, cf[0])
+            n += 1
+            missing = []
+            for f in a["variants"][0]["fields"]:
+                nm = f["name"]
+                blocks = [bi for bi, si, s_ in field_assigns(fn, nm, a["path"].rsplit("::", 1)[-1])]
+                blocks += [bi for bi, si, s_ in field_borrows(fn, nm, a["path"].rsplit("::", 1)[-1])]
+                # whole-struct assignment `*self = source.clone()` writes everything
+                whole = [bi for bi in sorted(fn.live) for s_ in fn.blocks[bi]["stmts"]
+                         if s_.get("k") == "assign" and s_["lhs"]["l"] == 1 and s_["lhs"]["p"] == ["deref"]]
+                blocks += whole
+                if not blocks or not fn.all_paths_to_return_pass(0, via_nodes=sorted(set(blocks))):
+                    if "PhantomData" in f["ty"]:
+                        continue
+                    missing.append(nm)
+            if missing:
+                ctx.violation("%s|clone_from|%s" % (cf[0], ",".join(missing)), site(fn, 0),
+                              "%s does not write field(s) %s of the destination on every path: a destination that held another value keeps it, so two copies synchronised "
+                              "with clone_from differ depending on their history (worker pattern vs snapshot pattern)" % (cf[0], missing))
+            else:
+                ctx.ok(site(fn, 0), "%s writes every field of %s on every path" % (cf[0].split(" as ")[0].lstrip("<"), a["path"]))
+    ctx.floor("hand-written clone_from implementations", n, 2)
+
+
 def rules(ctx):
+    ctx.run_rule("C19.cancel-writers", rule_cancel_writers)
+    ctx.run_rule("C19.clone-complete", rule_clone_complete)
     ctx.run_rule("C19.update-guard", rule_update_guard)
     ctx.run_rule("C19.changed-guards-mutation", rule_changed_guards_mutation)
     ctx.run_rule("C19.running-guards-spawn", rule_running_guards_spawn)
